@@ -279,6 +279,22 @@ impl Server {
             return;
         }
 
+        if handshake.max_receive_rate == 0 {
+            // Not a valid endpoint configuration (and a send rate ceiling of zero cannot be
+            // sustained by the rate computation)
+            let reply = frame::Frame::HandshakeErrorFrame(frame::HandshakeErrorFrame {
+                nonce_ack: handshake.nonce,
+                error: frame::HandshakeErrorType::Config,
+            });
+            let _ = self.socket.send_to(&reply.write(), client_addr);
+
+            if self.config.enable_handshake_errors {
+                self.events_out.push(Event::Error(client_addr, ErrorType::Config));
+            }
+
+            return;
+        }
+
         if (handshake.max_receive_alloc as usize) < self.config.endpoint_config.max_packet_size {
             // This connection may stall
             let reply = frame::Frame::HandshakeErrorFrame(frame::HandshakeErrorFrame {
